@@ -32,9 +32,48 @@ def _case(rng, s):
     return "".join(c.upper() if rng.random() < 0.5 else c.lower() for c in s)
 
 
+def lax_int_text(rng, n: int) -> str:
+    """a spelling pydantic's lax mode reads as the plain integer `n`: sign, leading zeros, single underscores,
+    a fraction of zeros, surrounding white space"""
+    s = str(abs(n))
+    r = rng.random()
+    if r < 0.15 and len(s) > 1:
+        i = rng.randrange(1, len(s))
+        s = s[:i] + "_" + s[i:]
+    elif r < 0.3:
+        s = "0" * rng.choice([1, 2]) + s
+    elif r < 0.4:
+        s = s + "." + "0" * rng.choice([1, 2])
+    if n < 0:
+        s = "-" + s
+    elif rng.random() < 0.15:
+        s = "+" + s
+    if rng.random() < 0.1:
+        s = rng.choice([" ", "\t"]) + s + rng.choice(["", " "])
+    return s
+
+
+def hex_int_text(rng, n: int) -> str:
+    """a spelling `int(x, 16)` reads as `n`: optional 0x / 0X, any case, single underscores, sign"""
+    s = _case(rng, format(abs(n), "x"))
+    if len(s) > 1 and rng.random() < 0.2:
+        i = rng.randrange(1, len(s))
+        s = s[:i] + "_" + s[i:]
+    r = rng.random()
+    if r < 0.4:
+        s = rng.choice(["0x", "0X"]) + (("_" if rng.random() < 0.2 else "") + s)
+    if n < 0:
+        s = "-" + s
+    elif rng.random() < 0.1:
+        s = "+" + s
+    if rng.random() < 0.1:
+        s = " " + s + " "
+    return s
+
+
 def int_text(rng, n: int, auto: bool) -> str:
     if not auto:
-        return str(n)
+        return lax_int_text(rng, n)
     neg = n < 0
     m = abs(n)
     base = rng.choice(["d", "x", "o", "b"])
@@ -98,13 +137,18 @@ def valid(kind: Kind, src: str, rng, hi=255, uri_pool=None):
             return (f"i:{int(b)}", int(b))
         t = rng.choice(TRUE_S if b else FALSE_S)
         return (_s(t), t)
-    if k in ("int", "autoInt"):
+    if k in ("int", "autoInt", "hexInt"):
         n = small_int(rng, hi)
-        if src != "cli" and rng.random() < 0.15:
-            n = -n
-        if src == "file" and rng.random() < 0.6:
-            return (f"i:{n}", n)
-        t = int_text(rng, n, k == "autoInt")
+        if rng.random() < 0.15:
+            n = -n          # on the command line a value with a leading `-` travels as `--option=value`
+        if src == "file":
+            r = rng.random()
+            if r < 0.55:
+                return (f"i:{n}", n)
+            if r < 0.62:
+                b = rng.random() < 0.5
+                return ("b:1" if b else "b:0", b)      # TOML `true` / `false`: bool is an int
+        t = hex_int_text(rng, n) if k == "hexInt" else int_text(rng, n, k == "autoInt")
         if k == "autoInt" and src == "env" and rng.random() < 0.2:
             t = " " + t + "\t"
         return (_s(t), [t] if src == "cli" else t)
@@ -183,15 +227,42 @@ def valid(kind: Kind, src: str, rng, hi=255, uri_pool=None):
         t = rng.choice(kind.choices)
         return (_s(t), [t] if src == "cli" else t)
     if k == "autoInts":
+        if src == "env":
+            return None      # a string never is a list
+        n = rng.choice([0, 1, 1, 2, 3, 5])
+        if src == "file" and rng.random() < 0.5:
+            ints = [small_int(rng, 126) for _ in range(n)]
+            return ("L:" + ",".join(f"i:{i}" for i in ints), ints)
+        toks = [int_text(rng, small_int(rng, 126) * (-1 if src == "file" and rng.random() < 0.1 else 1), True) for _ in range(n)]
+        return ("L:" + ",".join(_s(t) for t in toks), toks)
+    if k == "tuples":
+        if src != "cli":
+            return None      # env: a string never is a list; no shipped option of this kind has a file key
+        n = rng.choice([0, 1, 1, 2, 3])
+        toks = []
+        for _ in range(n):
+            parts = [int_text(rng, small_int(rng, 0xFFFF), True) for _ in range(kind.arity)]
+            if rng.random() < 0.15:
+                parts = [" " + p + " " for p in parts]       # int(x, 0) strips
+            toks.append(":".join(parts))
+        return ("L:" + ",".join(_s(t) for t in toks), toks)
+    if k == "enums":
         if src != "cli":
             return None
-        toks = [int_text(rng, small_int(rng, 126), True) for _ in range(rng.choice([1, 2, 3]))]
+        n = rng.choice([0, 1, 2, 3, 6])
+        toks = []
+        for _ in range(n):
+            name, val = rng.choice(kind.members)
+            toks.append(rng.choice([name, str(val), hex(val), "0X" + format(val, "X"), "0b" + format(val, "b")]))
         return ("L:" + ",".join(_s(t) for t in toks), toks)
     return None
 
 
 INVALID_TEXT = {
-    "int": ["zz", "0x10", "1.5", "12a"],
+    "int": ["zz", "0x10", "1.5", "12a", "1__0", "_1", "1_", "1.", ".0", "+-1", "--1", "1e2", "", "1 0", "-_1", "0-01"],
+    "hexInt": ["zz", "0o7", "_10", "1__0", "1_", "0x", "", "- 5", "+-1", "0x-1", "1.0", "g"],
+    "tuples": ["1:2:3:4:5", "1", "1:x:3:4", "zz", "", "1;2", "1:2:0xzz:4"],
+    "enums": ["NoSuchService", "999", "0x1ff", "1.0", ""],
     "autoInt": ["0xzz", "09", "1__0", "12a", "0x", "_1", "1_", "0b12", "- 5"],
     "hexBytes": ["abc", "zz", "3e 00", "0x3e"],
     "ranges": ["1-x", "1-2-3", "a", "1,,2"],
@@ -203,6 +274,12 @@ INVALID_TEXT = {
     "psuri": ["tcp://[::1"],
     "validated-str": ["no-such-oem", "Default"],
     "bool": ["maybe", "2", "tru"],
+}
+
+
+WRONG_TYPE = {
+    "5": "i:5", "True": "b:1", "['tcp://a:1']": "L:" + _s("tcp://a:1"), "[]": "L:", "['1.0']": "L:" + _s("1.0"), "['1']": "L:" + _s("1"),
+    "['alpha']": "L:" + _s("alpha"),
 }
 
 
@@ -219,22 +296,57 @@ def invalid(kind: Kind, src: str, rng):
     if k == "text":
         if src != "file":
             return None
-        return ("i:5", 5)
+        v = rng.choice([5, 5, True, ["a"]])
+        return ({"5": "i:5", "True": "b:1", "['a']": "L:" + _s("a")}[repr(v)], v)
     if k == "opaque":
+        if src == "file" and kind.sub != "float" and rng.random() < 0.4:
+            v = rng.choice([5, True, ["tcp://a:1"], []])       # a TOML value that is not a string
+            return (WRONG_TYPE[repr(v)], v)
+        if src == "file" and kind.sub == "float" and rng.random() < 0.3:
+            v = rng.choice([["1.0"], []])
+            return (WRONG_TYPE[repr(v)], v)
         t = rng.choice(INVALID_TEXT[kind.sub])
         return (f"o:{thex(t)}:0", [t] if src == "cli" else t)
+    if k in ("int", "choice") and src == "file" and rng.random() < 0.3:
+        v = rng.choice([["1"], []]) if k == "int" else rng.choice([5, True, ["alpha"]])
+        return (WRONG_TYPE[repr(v)], v)
     if k in ("ranges", "ranges2d"):
         t = rng.choice(INVALID_TEXT[k])
         if src == "cli":
             toks = ["1", t] if rng.random() < 0.5 else [t]
             return ("L:" + ",".join(_s(x) for x in toks), toks)
         return (_s(t), t)
+    if k == "autoInts":
+        if src == "env":
+            t = rng.choice(["1", "1 2", "[1]"])        # a string for a list field: refused as a whole
+            return (_s(t), t)
+        if src == "file":
+            return None
+        toks = rng.choice([["1", "0xzz"], ["0xzz"], ["1", "2", "09"], ["", "1"]])
+        return ("L:" + ",".join(_s(x) for x in toks), toks)
+    if k in ("tuples", "enums"):
+        if src == "file":
+            return None
+        if src == "env":
+            t = rng.choice(["1:2:3", "0x10", "DiagnosticSessionControl", ""])
+            return (_s(t), t)
+        bad = rng.choice(INVALID_TEXT[k])
+        if k == "tuples":
+            bad = {2: {"1:x:3:4": "1:x", "1:2:0xzz:4": "0xzz:4"}, 3: {"1:x:3:4": "1:x:3", "1:2:0xzz:4": "1:2:0xzz"}}.get(kind.arity, {}).get(bad, bad)
+            good = ":".join(["1"] * kind.arity)
+        else:
+            good = kind.members[0][0]
+        toks = rng.choice([[bad], [good, bad], [good, bad, good], [bad, bad]])
+        return ("L:" + ",".join(_s(x) for x in toks), toks)
+    if k == "dict":
+        if src == "file":
+            return None
+        if src == "env":
+            t = rng.choice(["a=1", '{"a": 1}', ""])
+            return (_s(t), t)
+        toks = rng.choice([[], ["a=1"], ['{"a": 1}'], ["a", "1"]])     # nargs=* always hands over a list
+        return ("L:" + ",".join(_s(x) for x in toks), toks)
     if k in INVALID_TEXT:
         t = rng.choice(INVALID_TEXT[k])
         return (_s(t), [t] if src == "cli" else t)
-    if k == "autoInts":
-        if src != "cli":
-            return None
-        toks = ["1", "0xzz"]
-        return ("L:" + ",".join(_s(x) for x in toks), toks)
     return None
